@@ -385,6 +385,8 @@ class Unit:
             counts.append((rule, count, cnt, rx))
             file_rewrites.append((rule, cnt, rx, repl, no))
         world_callees = self.cfg.get('world_callees', [])
+        if fcfg.get('prelude'):
+            em.emit(fcfg['prelude'] + '\n', ('gen', None, 0))
         found = set()
         def want_plain(it):
             if it.kind in ('mod', 'macro'):
@@ -489,15 +491,16 @@ class Unit:
                 node = node.setdefault('mods', {}).setdefault(seg, {})
             node.setdefault('files', []).append(repo_file)
         mod_prelude = self.cfg.get('module_prelude',
-            '#[allow(unused_imports)] use vstd::prelude::*;\n#[allow(unused_imports)] use crate::{pnet, log};\n#[allow(unused_imports)] use crate::shim::*;\n#[allow(unused_imports)] use crate::{World, Ev, Layer, Verb};\n#[allow(unused_imports)] use crate::pnet::cksum::*;\n')
-        def emit_node(node, depth):
+            '#[allow(unused_imports)] use vstd::prelude::*;\n#[allow(unused_imports)] use crate::{pnet, log};\n#[allow(unused_imports)] use crate::shim::*;\n#[allow(unused_imports)] use crate::{World, Ev, Layer, Verb};\n#[allow(unused_imports)] use crate::pnet::cksum::*;\n#[allow(unused_imports)] use crate::pnet::pspec::*;\n#[allow(unused_imports)] use crate::pnet::util::{mac_bytes, mac_at};\n#[allow(unused_imports)] use crate::client::*;\n#[allow(unused_imports)] use crate::evspec::*;\n#[allow(unused_imports)] use crate::appspec::*;\n#[allow(unused_imports)] use crate::cfgspec::*;\nbroadcast use {crate::evspec::group_events, crate::shim::group_ip_axioms, crate::shim::axiom_ipaddr_key_model, crate::pnet::util::axiom_macaddr_key_model, vstd::std_specs::hash::group_hash_axioms};\n')
+        def emit_node(node, depth, path=()):
             for f in node.get('files', []):
                 em.emit('// ---- extracted from %s\n' % f, ('gen', None, 0))
                 self._emit_file(em, f, self.cfg['files'][f])
             for name, sub in node.get('mods', {}).items():
                 G('pub mod %s {\n' % name)
-                G(mod_prelude)
-                emit_node(sub, depth + 1)
+                me = 'use crate::' + '::'.join(path + (name,)) + '::*;'
+                G(''.join(l + '\n' for l in mod_prelude.split('\n') if l and me not in l))
+                emit_node(sub, depth + 1, path + (name,))
                 G('} // mod %s\n' % name)
         emit_node(tree, 0)
         if getattr(self, 'canary', False):
